@@ -178,6 +178,12 @@ theorem resetDefault_cons (env : Env) (fuel : Nat) (f : Field) (fs : List Field)
        | none =>
          match f.ty with
          | .struct _ => resetInner env fuel f.ty o
+         | .arr n (.struct s) =>
+           (match env.find s with
+            | some ifs =>
+              Val.list (List.replicate n
+                (Val.struct (resetDefault env fuel ifs (ifs.map fun g => zeroOf env g.ty))))
+            | none => zeroOf env f.ty)
          | t => zeroOf env t) :: resetDefault env (fuel+1) fs os := by
   conv => lhs; unfold resetDefault
   rfl
@@ -244,8 +250,26 @@ theorem resetDefault_oldOK {env : Env} {rk : String → Nat} (hE : EnvWF env rk)
     | some d => rfl
     | none =>
       simp only at htf
-      cases ty <;> try exact zeroOf_ready hE _ htf
-      exact resetDefault_inner_ready env fuel (resetDefault_ready env fuel) _ o h1
+      cases ty with
+      | struct nm => exact resetDefault_inner_ready env fuel (resetDefault_ready env fuel) _ o h1
+      | arr n e =>
+        cases e with
+        | struct s =>
+          -- `[N]S{}` followed by `ResetDefault` of every element: `n` admissible targets
+          simp only
+          cases hfs : env.find s with
+          | none => exact zeroOf_ready hE _ htf
+          | some ifs =>
+            simp only [Ready, List.length_replicate, true_and]
+            apply readyAll_replicate
+            simp only [Ready, hfs]
+            apply resetDefault_ready
+            obtain ⟨hrk, _, hfok⟩ := hE s ifs hfs
+            apply readyMembers_map_zero env (zeroOf env) ifs
+            intro g hg _
+            exact zeroOf_ready hE _ (TyOK.mono (by omega) (hfok g hg).2.1)
+        | _ => exact zeroOf_ready hE _ htf
+      | _ => exact zeroOf_ready hE _ htf
 
 /-- the two `ResetDefault` calls of `ReadBlock` + `ReadFrom` -/
 theorem resetDefault_twice_oldOK {env : Env} {rk : String → Nat} (hE : EnvWF env rk) (fuel : Nat)
